@@ -73,6 +73,7 @@ def _exec_class(code: str):
     exec('from typing import Any, Dict, List, Optional\nimport numpy as np\nfrom fsic import BaseModel\n', ns)  # noqa: S102
     install_user_functions()
     ns['myexp'] = fparser.myexp
+    ns['my'] = fparser.my
     exec(code, ns)  # noqa: S102
     return ns['Model']
 
